@@ -82,6 +82,18 @@ Theorem set_member_object : forall s recv oid m cell,
 Proof. exact Arrays.set_member_object. Qed.
 Print Assumptions set_member_object.
 
+Definition ex_obj : heap * addr * addr * addr :=
+  let '(o, h1) := new_empty_object empty_heap in
+  let '(pa, h2) := alloc h1 o in
+  let '(pb, h3) := alloc h2 o in
+  let '(c, h4) := alloc h3 (VNum f_one) in (h4, pa, pb, c).
+Example set_member_object_ex :
+  let '(h, pa, pb, c) := ex_obj in
+  load h pa = VObj 2 /\
+  (let s' := snd (set_member pa (VNum f_one) c (st_of h)) in
+   get_obj (hp s') 2 = [(bs "1", c)]).
+Proof. vm_compute. split; reflexivity. Qed.
+
 (* objects are shared *)
 Theorem object_store_shared : forall s pa pb oid m cell,
   load (hp s) pa = VObj oid -> load (hp s) pb = VObj oid ->
@@ -91,11 +103,6 @@ Theorem object_store_shared : forall s pa pb oid m cell,
 Proof. exact Arrays.object_store_shared. Qed.
 Print Assumptions object_store_shared.
 
-Definition ex_obj : heap * addr * addr * addr :=
-  let '(o, h1) := new_empty_object empty_heap in
-  let '(pa, h2) := alloc h1 o in
-  let '(pb, h3) := alloc h2 o in
-  let '(c, h4) := alloc h3 (VNum f_one) in (h4, pa, pb, c).
 Example object_store_shared_ex :
   let '(h, pa, pb, c) := ex_obj in
   load h pa = VObj 2 /\ load h pb = VObj 2 /\
